@@ -420,21 +420,37 @@ void ICACHE_FLASH_ATTR supla_esp_mqtt_conn_recv_cb(void *arg, char *pdata,
   // turns out otherwise, you have to use an additional intermediate buffer.
 
   // The client keeps an incomplete packet at the start of recvbuf and expects
-  // new bytes at recv_buffer.curr, so the segment is stored behind it.
-  size_t kept = supla_esp_mqtt_vars->client.recv_buffer.curr -
-                supla_esp_mqtt_vars->client.recv_buffer.mem_start;
+  // new bytes at recv_buffer.curr, so the segment is stored behind it. A
+  // segment that does not fit at once is handed over in parts: every
+  // mqtt_sync() consumes the complete packets and makes room again.
+  while (len > 0) {
+    size_t kept = supla_esp_mqtt_vars->client.recv_buffer.curr -
+                  supla_esp_mqtt_vars->client.recv_buffer.mem_start;
+    size_t used = kept + supla_esp_mqtt_vars->recv_len;
+    size_t room = used < MQTT_RECVBUF_SIZE ? MQTT_RECVBUF_SIZE - used : 0;
+    unsigned short part = len < room ? len : (unsigned short)room;
 
-  if (kept + len + supla_esp_mqtt_vars->recv_len > MQTT_RECVBUF_SIZE) {
-    supla_log(LOG_DEBUG, "MQTT recv buffer is too small! %i",
-              kept + len + supla_esp_mqtt_vars->recv_len - MQTT_RECVBUF_SIZE);
-    return;
+    if (part == 0) {
+      // The packet at the head of the buffer can never be completed. Part of
+      // the stream would be lost, so the connection has to be set up again.
+      supla_log(LOG_DEBUG, "MQTT recv buffer is too small! %i", len);
+      supla_esp_mqtt_vars->recv_len = 0;
+      supla_esp_mqtt_vars->client.error = MQTT_ERROR_RECV_BUFFER_TOO_SMALL;
+      return;
+    }
+
+    memcpy(&supla_esp_mqtt_vars->recvbuf[used], pdata, part);
+    supla_esp_mqtt_vars->recv_len += part;
+    pdata += part;
+    len -= part;
+
+    mqtt_sync(&supla_esp_mqtt_vars->client);
+
+    if (supla_esp_mqtt_vars->client.error != MQTT_OK) {
+      // what is left of this segment belongs to a connection that is given up
+      return;
+    }
   }
-
-  memcpy(&supla_esp_mqtt_vars->recvbuf[kept + supla_esp_mqtt_vars->recv_len],
-         pdata, len);
-  supla_esp_mqtt_vars->recv_len += len;
-
-  mqtt_sync(&supla_esp_mqtt_vars->client);
 }
 
 void ICACHE_FLASH_ATTR supla_esp_mqtt_on_message_received(
